@@ -1019,5 +1019,361 @@ def item_session_parts(repo, out):
                % ('true' if sets_first else 'false'))
 
 
+# ------------------------------------------------------------------------------------------- (round 4) block arguments
+# What is HANDED TO EVERY BLOCK of a dask graph that katdal builds: the positional arguments of da.blockwise / da.map_blocks /
+# da.core.elemwise (dask arrays: each task gets a chunk, which other tasks may be reading at the same time), the keyword
+# arguments that dask passes on to the block function and the variables a nested block function closes over (ONE object for
+# all tasks of the graph and for every later load of it).  A block function may only READ them: every parameter it writes
+# into (directly, through an alias such as `out = np.empty(..) if out is None else out`, by handing it to a callee that
+# writes into it) must be left unbound by the graph so that the function allocates its own per task.  The numba kernels are
+# analysed like any other function (their source is what numba compiles): the race window of a written shared buffer lies
+# inside compiled nogil code where no source-line pre-emption reaches, so this obligation and the model
+# (Model/ScratchRace.v: shared + written by two in-flight tasks = data race at ANY granularity) carry the claim.
+
+BLOCK_FILES = ['katdal/vis_flags_weights.py', 'katdal/applycal.py', 'katdal/chunkstore.py', 'katdal/visdatav4.py',
+               'katdal/lazy_indexer.py']
+GRAPH_BUILDERS = {'da.blockwise': 'blockwise', 'da.core.blockwise': 'blockwise', 'da.map_blocks': 'map_blocks',
+                  'da.core.map_blocks': 'map_blocks', 'da.core.elemwise': 'elemwise', 'da.elemwise': 'elemwise',
+                  'da.map_overlap': 'map_blocks'}
+# keywords that dask keeps for itself (never reach the block function)
+DASK_OWN_KW = {'blockwise': {'dtype', 'name', 'token', 'meta', 'new_axes', 'adjust_chunks', 'concatenate', 'align_arrays'},
+               'map_blocks': {'dtype', 'name', 'token', 'meta', 'chunks', 'drop_axis', 'new_axis', 'enforce_ndim',
+                              'depth', 'boundary', 'trim', 'align_arrays'},
+               'elemwise': {'dtype', 'name'}}
+# other uses of the dask namespace in these files that build no per-block call of a katdal function
+DASK_OTHER = {'da.core.blockdims_from_blockshape', 'da.slicing.normalize_index', 'da.slicing.normalize_slice', 'da.core.tokenize',
+              'da.from_array', 'da.take', 'da.store', 'da.Array', 'da.bitwise_and', 'da.round', 'da.compute', 'da.concatenate',
+              'da.stack', 'da.zeros', 'da.ones', 'da.full', 'da.empty', 'da.asarray', 'da.broadcast_to', 'da.where',
+              'dask.config.get', 'dask.utils.has_keyword', 'dask.base.tokenize', 'dask.config.set', 'da.core.getter',
+              'da.core.normalize_chunks', 'da.optimization.optimize', 'dask.is_dask_collection', 'dask.optimize', 'dask.optimization.cull',
+              'dask.highlevelgraph.HighLevelGraph.from_collections'}
+K_BLOCK, K_SHARED_KW, K_CLOSURE, K_LITERAL = 1, 2, 3, 4
+
+
+def _written_params(tree, fn, depth=0):
+    """the parameters (and, for a nested function, the free variables) of `fn` that it may write INTO: roots of the
+    write sites of fixtures.sharedwrites, closed under aliasing (`x = p`, `x = ... if p is None else p`) and under
+    handing the object to a function of the same module that writes into the corresponding parameter"""
+    from fixtures import sharedwrites as sw
+    sc = sw.Scope(fn)
+    a = fn.args
+    params = [x.arg for x in a.posonlyargs + a.args + a.kwonlyargs]
+    local = set(sc.bindings) | set(params)
+    roots = set()
+    for st in sw.function_sites(fn, fn.name, '<block>', False, sw.module_names(tree)):
+        if st.kind not in ('set', 'aug', 'del', 'call', 'out'):
+            continue
+        txt = st.text
+        if st.kind == 'call':
+            if txt.endswith(', ...)'):
+                txt = txt[txt.index('(') + 1:-len(', ...)')]       # np.copyto(x, ...)
+            else:
+                txt = txt[:txt.rindex('.')]                         # x.fill()
+        try:
+            expr = ast.parse(txt, mode='eval').body
+        except SyntaxError:
+            raise TranslateError('block function %s: cannot read write site %s' % (fn.name, st.text))
+        root, _ = sw.chain_of(expr)
+        if not isinstance(root, ast.Name):
+            raise TranslateError('block function %s: write site %s has no name at its root' % (fn.name, st.text))
+        roots.add(root.id)
+    defs = {n.name: n for n in tree.body if isinstance(n, ast.FunctionDef)}
+    if depth < 3:
+        for n in sw.own_nodes(fn):
+            if isinstance(n, ast.Call) and isinstance(n.func, ast.Name) and n.func.id in defs and defs[n.func.id] is not fn:
+                g = defs[n.func.id]
+                gw = _written_params(tree, g, depth + 1)
+                gp = [x.arg for x in g.args.posonlyargs + g.args.args]
+                for i, arg in enumerate(n.args):
+                    if i < len(gp) and gp[i] in gw:
+                        r, _ = sw.chain_of(arg)
+                        if isinstance(r, ast.Name):
+                            roots.add(r.id)
+                for kw in n.keywords:
+                    if kw.arg in gw:
+                        r, _ = sw.chain_of(kw.value)
+                        if isinstance(r, ast.Name):
+                            roots.add(r.id)
+    # aliases: a written name whose bindings mention other names may BE one of them
+    changed = True
+    while changed:
+        changed = False
+        for r in list(roots):
+            for v in sc.bindings.get(r, []):
+                if v is None:
+                    continue
+                for n in ast.walk(v):
+                    if isinstance(n, ast.Name) and isinstance(n.ctx, ast.Load) and n.id not in roots \
+                            and (n.id in params or n.id not in local) and not _fresh_producer(v, n, sc):
+                        roots.add(n.id)
+                        changed = True
+    free = set()
+    for n in sw.own_nodes(fn):
+        if isinstance(n, ast.Name) and n.id not in local:
+            free.add(n.id)
+    return {r for r in roots if r in params or r in free}
+
+
+def _fresh_producer(value, name_node, sc):
+    """inside the binding expression `value`, does the name only occur as the argument of something that returns a NEW
+    object (p.copy(), np.empty(p.shape), p is None, len(p))?  Then the bound name is no alias of it."""
+    from fixtures import sharedwrites as sw
+
+    def alias_of(e):
+        if e is name_node:
+            return True
+        if isinstance(e, ast.IfExp):
+            return alias_of(e.body) or alias_of(e.orelse)
+        if isinstance(e, ast.BoolOp):
+            return any(alias_of(v) for v in e.values)
+        if isinstance(e, (ast.Subscript, ast.Starred)):
+            return alias_of(e.value)
+        if isinstance(e, ast.Attribute):
+            return e.attr not in sw.SCALAR_ATTRS and alias_of(e.value)
+        if isinstance(e, ast.NamedExpr):
+            return alias_of(e.value)
+        if isinstance(e, (ast.Tuple, ast.List)):
+            return any(alias_of(x) for x in e.elts)
+        if isinstance(e, ast.Call):
+            d = sw.dotted(e.func)
+            if d in sw.FRESH_CALLS:
+                return False
+            if isinstance(e.func, ast.Attribute) and e.func.attr in sw.FRESH_METHODS:
+                return False
+            if d is not None and d.split('.')[-1].lstrip('_')[:1].isupper():
+                return False
+            return any(alias_of(x) for x in list(e.args) + [k.value for k in e.keywords]) or \
+                (isinstance(e.func, ast.Attribute) and alias_of(e.func.value))
+        return False
+    return not alias_of(value)
+
+
+def block_calls(repo):
+    """[(ident, [(parameter, kind, written)])] for every graph-building call of the block files, in source order"""
+    from fixtures import sharedwrites as sw
+    calls = []
+    for rel in BLOCK_FILES:
+        tree = _parse(repo, rel)
+        base = rel.split('/')[-1]
+        module_defs = {n.name: n for n in tree.body if isinstance(n, ast.FunctionDef)}
+
+        def visit(node, enclosing):
+            for c in ast.iter_child_nodes(node):
+                if isinstance(c, (ast.FunctionDef, ast.AsyncFunctionDef)):
+                    visit(c, enclosing + [c])
+                    continue
+                if isinstance(c, ast.Call):
+                    d = sw.dotted(c.func)
+                    meth = c.func.attr if isinstance(c.func, ast.Attribute) else None
+                    if d in GRAPH_BUILDERS or (d not in DASK_OTHER and meth in ('map_blocks', 'map_overlap', 'blockwise')):
+                        kind = GRAPH_BUILDERS.get(d) or ('map_blocks' if meth != 'blockwise' else 'blockwise')
+                        calls.append(_one_block_call(tree, base, module_defs, enclosing, c, kind,
+                                                     method_form=d not in GRAPH_BUILDERS))
+                    elif d is not None and d.split('.')[0] in ('da', 'dask') and d not in DASK_OTHER:
+                        raise TranslateError('%s:%d: %s(...) is not a dask call the block-argument inventory knows' %
+                                             (rel, c.lineno, d))
+                visit(c, enclosing)
+        visit(tree, [])
+    return calls
+
+
+def _one_block_call(tree, base, module_defs, enclosing, call, kind, method_form):
+    from fixtures import sharedwrites as sw
+    where = '%s:%s' % (base, enclosing[-1].name if enclosing else '<module>')
+    args = list(call.args)
+    if not args or any(isinstance(x, ast.Starred) for x in args) or any(k.arg is None for k in call.keywords):
+        raise TranslateError('%s: graph-building call with */** arguments: %s' % (where, ast.unparse(call)[:80]))
+    f = args.pop(0)
+    if not isinstance(f, ast.Name):
+        raise TranslateError('%s: block function is not a plain name: %s' % (where, ast.unparse(f)))
+    fn = None
+    for e in reversed(enclosing):
+        for n in e.body:
+            if isinstance(n, ast.FunctionDef) and n.name == f.id:
+                fn = n
+        if fn is not None:
+            break
+    nested = fn is not None
+    if fn is None:
+        fn = module_defs.get(f.id)
+    own = DASK_OWN_KW[kind]
+    bound = []
+    if fn is None:
+        # the function is itself a parameter of the enclosing method (visdatav4: elemwise(apply_correction, data, corrections)):
+        # only dask's own keywords may accompany it; the candidates are inventoried where they are defined
+        if not (enclosing and f.id in [x.arg for x in enclosing[-1].args.args]) or kind != 'elemwise':
+            raise TranslateError('%s: block function %s not found' % (where, f.id))
+        extra = [k.arg for k in call.keywords if k.arg not in own]
+        if extra:
+            raise TranslateError('%s: elemwise(%s, ...) passes keywords %s to an unknown function' % (where, f.id, extra))
+        return ('%s:%s:<param %s>' % (where, kind, f.id), [('arg%d' % i, K_BLOCK, False) for i in range(len(args))])
+    a = fn.args
+    if a.vararg is not None or a.kwarg is not None:
+        raise TranslateError('%s: block function %s takes */** parameters' % (where, fn.name))
+    params = [x.arg for x in a.posonlyargs + a.args]
+    allp = params + [x.arg for x in a.kwonlyargs]
+    written = _written_params(tree, fn)
+    if kind == 'blockwise':
+        if len(args) < 1 or len(args) % 2 != 1:
+            raise TranslateError('%s: da.blockwise: expected fn, out_index, (array, index)*' % where)
+        pairs = args[1:]
+        for i in range(0, len(pairs), 2):
+            p = params[i // 2] if i // 2 < len(params) else None
+            if p is None:
+                raise TranslateError('%s: more block arguments than parameters of %s' % (where, fn.name))
+            ind = pairs[i + 1]
+            lit = isinstance(ind, ast.Constant) and ind.value is None
+            if not lit and not (isinstance(ind, ast.Constant) and isinstance(ind.value, str)) and not isinstance(ind, (ast.Tuple, ast.Name)):
+                raise TranslateError('%s: da.blockwise index %s' % (where, ast.unparse(ind)))
+            bound.append((p, K_LITERAL if lit else K_BLOCK, p in written))
+    else:
+        for i, _x in enumerate(args):
+            if i >= len(params):
+                raise TranslateError('%s: more block arguments than parameters of %s' % (where, fn.name))
+            bound.append((params[i], K_BLOCK, params[i] in written))
+    for k in call.keywords:
+        if k.arg in own:
+            continue
+        if k.arg not in allp:
+            raise TranslateError('%s: keyword %s is neither dask\'s nor a parameter of %s' % (where, k.arg, fn.name))
+        bound.append((k.arg, K_SHARED_KW, k.arg in written))
+    if nested:
+        sc = sw.Scope(fn)
+        local = set(sc.bindings) | set(allp)
+        glob = set(module_defs) | {n.id for st in tree.body if isinstance(st, ast.Assign) for t in st.targets
+                                   for n in ast.walk(t) if isinstance(n, ast.Name)} | sw.module_names(tree) | set(dir(__builtins__)) \
+            | {al.asname or al.name for st in tree.body if isinstance(st, (ast.Import, ast.ImportFrom)) for al in st.names} \
+            | {n.name for n in tree.body if isinstance(n, ast.ClassDef)} | set(__builtins__ if isinstance(__builtins__, dict) else ())
+        free = []
+        for n in sw.own_nodes(fn):
+            if isinstance(n, ast.Name) and n.id not in local and n.id not in glob and n.id not in free:
+                free.append(n.id)
+        for v in sorted(free):
+            bound.append((v, K_CLOSURE, v in written))
+    return ('%s:%s:%s' % (where, kind, fn.name), bound)
+
+
+def item_block_args(repo, out):
+    calls = block_calls(repo)
+    if not calls:
+        raise TranslateError('block-argument inventory: no graph-building call found')
+    out.append('Definition c20_block_calls : list (string * list (string * (Z * bool))) := [%s].   (* per graph-building call: '
+               'what is bound to which parameter of the block function (1 a dask array: one chunk per task, 2 a keyword passed to '
+               'every block, 3 a variable the nested block function closes over, 4 a literal positional) and whether the function '
+               'may write into that parameter *)'
+               % '; '.join('("%s"%%string, [%s])' % (ident, '; '.join(
+                   '("%s"%%string, ((%d)%%Z, %s))' % (p, k, 'true' if w else 'false') for p, k, w in bound))
+                   for ident, bound in calls))
+    # the written parameters of the numba kernels / block functions that the graphs leave unbound (allocated per call)
+    per_call = []
+    for rel in BLOCK_FILES:
+        tree = _parse(repo, rel)
+        for n in tree.body:
+            if isinstance(n, ast.FunctionDef) and any('jit' in ast.unparse(d) for d in n.decorator_list):
+                w = sorted(_written_params(tree, n))
+                per_call.append(('%s:%s' % (rel.split('/')[-1], n.name), w))
+    out.append('Definition c20_kernel_written_params : list (string * list string) := [%s].   (* numba kernels: the parameters '
+               'they write into *)' % '; '.join('("%s"%%string, %s)' % (k, coq_strings(w)) for k, w in per_call))
+
+
+# ------------------------------------------------------------------------------------------- (round 4) tests outside a lock
+# The guarded fields of a class are DERIVED from its source: every attribute of `self` that some method other than
+# __init__ writes (assignment / deletion / augmented assignment, also into an item; a mutating method call) inside a
+# `with self.<lock>:`.  Every mention of such a field outside the lock, in any method but __init__, is listed
+# (`method:field`), and for SensorCache.get the ones that come BEFORE its `with self._lock:` -- a test made outside the lock
+# on state that is written under it -- are what decides the guard position of Model/GuardTest.v.
+
+def _self_field(node):
+    """the attribute of `self` an expression is rooted in: self.X, self.X[k], self.X.y -> 'X'"""
+    from fixtures.sharedwrites import chain_of
+    root, links = chain_of(node)
+    if isinstance(root, ast.Name) and root.id == 'self' and links and isinstance(links[0], ast.Attribute):
+        return links[0].attr
+    return None
+
+
+def _fields_written(node):
+    from fixtures import sharedwrites as sw
+    out = set()
+    for n in ast.walk(node):
+        targets = []
+        if isinstance(n, ast.Assign):
+            targets = n.targets
+        elif isinstance(n, (ast.AugAssign, ast.AnnAssign)):
+            targets = [n.target]
+        elif isinstance(n, ast.Delete):
+            targets = n.targets
+        elif isinstance(n, ast.Call) and isinstance(n.func, ast.Attribute) and n.func.attr in sw.MUTATORS:
+            targets = [n.func.value]
+        for t in targets:
+            for tt in (t.elts if isinstance(t, (ast.Tuple, ast.List)) else [t]):
+                f = _self_field(tt)
+                if f is not None:
+                    out.add(f)
+    return out
+
+
+def derived_guard(repo, rel, cls, lock):
+    c = _class(_parse(repo, rel), cls, rel)
+    methods = [f for f in c.body if isinstance(f, (ast.FunctionDef, ast.AsyncFunctionDef))]
+    guarded = set()
+    for f in methods:
+        if f.name == '__init__':
+            continue
+        for n in ast.walk(f):
+            if isinstance(n, ast.With) and any(_is_self_attr(i.context_expr, [lock]) for i in n.items):
+                for st in n.body:
+                    guarded |= _fields_written(st)
+    guarded.discard(lock)
+    outside, pretests = [], {}
+
+    def mentions_outside(node, fields, acc):
+        if isinstance(node, ast.With) and any(_is_self_attr(i.context_expr, [lock]) for i in node.items):
+            return
+        if isinstance(node, ast.Attribute) and isinstance(node.value, ast.Name) and node.value.id == 'self' and node.attr in fields:
+            if node.attr not in acc:
+                acc.append(node.attr)
+        for ch in ast.iter_child_nodes(node):
+            mentions_outside(ch, fields, acc)
+    for f in methods:
+        if f.name == '__init__':
+            continue
+        acc = []
+        mentions_outside(f, guarded, acc)
+        outside += ['%s:%s' % (f.name, a) for a in acc]
+        # statements of the method body that precede its (first) `with self.<lock>:`
+        pre = []
+        for st in f.body:
+            if isinstance(st, ast.With) and any(_is_self_attr(i.context_expr, [lock]) for i in st.items):
+                break
+            mentions_outside(st, guarded, pre)
+        else:
+            pre = []
+        pretests[f.name] = pre
+    return sorted(guarded), outside, pretests
+
+
+def item_outside_tests(repo, out):
+    rows = []
+    for nm, rel, cls, lock in [('sensor', 'katdal/sensordata.py', 'SensorCache', '_lock'),
+                               ('concat', 'katdal/concatdata.py', 'ConcatenatedSensorCache', '_lock'),
+                               ('dask', 'katdal/lazy_indexer.py', 'DaskLazyIndexer', '_lock'),
+                               ('spw', 'katdal/spectral_window.py', 'SpectralWindow', '_channel_freqs_lock'),
+                               ('pool', 'katdal/chunkstore_s3.py', '_Pool', '_lock')]:
+        guarded, outside, pretests = derived_guard(repo, rel, cls, lock)
+        rows.append((nm, guarded, outside))
+        if nm == 'sensor':
+            if 'get' not in pretests:
+                raise TranslateError('SensorCache.get not found')
+            out.append('Definition c20_sensor_get_pretests : list string := %s.   (* fields written under the cache lock that '
+                       'SensorCache.get mentions BEFORE its `with self._lock:` *)' % coq_strings(pretests['get']))
+    out.append('Definition c20_guarded_derived : list (string * list string) := [%s].   (* per class: the attributes written '
+               'inside `with self.<lock>:` by a method other than __init__ *)'
+               % '; '.join('("%s"%%string, %s)' % (nm, coq_strings(g)) for nm, g, _ in rows))
+    out.append('Definition c20_outside_lock_mentions : list (string * list string) := [%s].   (* per class: method:field for '
+               'every mention of such an attribute outside the lock (not __init__) *)'
+               % '; '.join('("%s"%%string, %s)' % (nm, coq_strings(o)) for nm, _, o in rows))
+
+
 ITEMS = [item_sites, item_discipline, item_pool, item_sensor_flow, item_props, item_verify_bucket,
-         item_shared_writes, item_session_parts]
+         item_shared_writes, item_session_parts, item_block_args, item_outside_tests]
